@@ -18,7 +18,8 @@ def run(c):
     c.rule = ("random histories of 15-70 requests against the REAL metadata.DBV2 with random budgets (max 1..8|1000, step 1|7|60|3600 s, bonus 0|1|2|10, "
               "global budget 0|2|5|10^6) and a scripted clock (no move, < 1 step, 1-3 steps, hundreds of steps, backwards, around and beyond 2^32): "
               "get-or-create over 1-4 metrics and 4-40 keys, PutMapping (used/unused keys and ids, ids <= 0), batched delete (present, absent, duplicate ids), "
-              "ResetFlood (<=0, 1, around max, 9999..20000), by-value/by-id/GetNewMappings reads, orderly restarts (Close + OpenDB on the same files: "
+              "ResetFlood (<=0, 1, around max, ceiling-1, ceiling=10000, ceiling+1, 2x, MaxInt32; the stored flood row is read back after every reset and is "
+              "part of the compared observation), by-value/by-id/GetNewMappings reads, orderly restarts (Close + OpenDB on the same files: "
               "lastMappingIDToInsert starts from 0), state dumps; every 6th case is a pure stream of 60 "
               "calcBudget + roundTime calls at the boundaries (old around 0/max, unsigned wrap of now-last). Non-trivial = a history with a flood-limit "
               "error after the global budget was exhausted, or with a deletion; distinct by op-sequence hash")
@@ -89,7 +90,8 @@ META = {
              "whose requests see a non-decreasing clock in [t0,T], T<2^32: #created(m) <= max(maxBudget, remaining budget of m at the start) + bonus*(T/step - t0/step); "
              "ACROSS RESETS (flood_bound_across_resets): with any number of reset-flood requests of m inside the span, "
              "#created(m) <= max(maxBudget, budget at start) + SUM over those resets of max(maxBudget, value the reset sets, capped at 10000 as the code caps it) "
-             "+ bonus*(T/step - t0/step); the remaining budget is <= max(maxBudget, 10000) in every reachable state (budget_bounded); 'exhausted' is preserved by every operation; frame lemma "
+             "+ bonus*(T/step - t0/step); a reset stores exactly min(requested value, 10000), never more than the reply reports (reset_budget_le_ceiling); "
+             "the remaining budget is <= max(maxBudget, 10000) in every reachable state (budget_bounded); 'exhausted' is preserved by every operation; frame lemma "
              "hstep_row: only a reset of m or a successful creation for m writes m's row, the latter as exactly one calcBudget attempt; a request with no budget "
              "left answers flood-limit and changes nothing (beyond_budget_is_flood_error)."),
     "note": ("Trusted: Lean kernel, SQLite, model<->code correspondence (quick 400, thorough 12000 histories + corpus). Hypotheses of flood_bound / flood_bound_across_resets, each shown necessary "
@@ -99,6 +101,7 @@ META = {
              "in the same step wraps as well (observation 1 in Props/C19, corpus/C19/reset-then-create-same-step.ops); still within the property as read here. "
              "Restart is modelled (reopen: lastMappingIDToInsert := 0, so the first creation after a restart is flood-limited even inside the global budget: "
              "corpus/C19/reopen-drops-global-budget-exemption.ops) and exercised by the correspondence. flood_bound_partial (single-row bucket) is kept. "
-             "Not modelled: int32 truncation of ids >= 2^31, GetNewMappings byte limit, crashes (C17)."),
+             "Oracle on the stored row after every reset: reset-budget-above-ceiling / reset-budget-above-reported; thorough tier additionally runs one case "
+             "with a MaxInt32 reset followed by ceiling+50 real creations (exactly 10000 may succeed). Not modelled: int32 truncation of ids >= 2^31, GetNewMappings byte limit, crashes (C17)."),
     "design_ref": "DESIGN.md §6 C19",
 }
